@@ -24,7 +24,7 @@ func properties() []Property {
 				{Name: "H_C01_receivers", Profile: "bit", Quick: b("rcvKinds", 8, "denomKinds", 4, "memoKinds", 2, "amountKinds", 3, "intKinds", 1, "fees", 0, "priors", 1, "pauses", 0, "ptMax", 0, "feeRcpKinds", 1, "faults", 0, "earlier", 0), Covers: []string{"error-ack", "success-ack", "success-ack-to-orbiter", "success-ack-to-someone-else"}},
 				{Name: "H_C01_payloads", Profile: "bit", Quick: b("rcvKinds", 2, "denomKinds", 1, "memoKinds", 6, "amountKinds", 1, "intKinds", 5, "fees", 1, "priors", 1, "pauses", 0, "ptMax", 0, "feeRcpKinds", 3, "faults", 0, "earlier", 0), Thorough: b("rcvKinds", 2, "denomKinds", 1, "memoKinds", 6, "amountKinds", 1, "intKinds", 5, "fees", 1, "priors", 1, "pauses", 1, "ptMax", 1, "feeRcpKinds", 3, "faults", 0, "earlier", 0), Covers: []string{"error-ack", "success-ack", "success-ack-to-orbiter"}},
 				{Name: "H_C01_faults", Profile: "bit", Quick: b("rcvKinds", 2, "denomKinds", 1, "memoKinds", 1, "amountKinds", 1, "intKinds", 2, "fees", 1, "priors", 1, "pauses", 0, "ptMax", 0, "feeRcpKinds", 2, "faults", 1, "earlier", 0), Covers: []string{"error-ack", "success-ack", "success-ack-to-orbiter"}},
-				{Name: "H_C01_encodings", Profile: "bit", Covers: []string{"refused", "success"}},
+				{Name: "H_C01_encodings", Profile: "bit", Covers: []string{"refused", "success", "orbiter-transfer-executed"}},
 				{Name: "H_C01_sequence", Profile: "bit", Quick: b("rcvKinds", 2, "denomKinds", 1, "memoKinds", 2, "amountKinds", 1, "intKinds", 2, "fees", 1, "priors", 1, "pauses", 0, "ptMax", 0, "feeRcpKinds", 1, "faults", 0, "earlier", 1), Covers: []string{"error-ack", "success-ack-to-orbiter", "after-an-earlier-transfer"}},
 			}},
 		{ID: "C02", Assumptions: []string{aSummaries, aModels, aE1, aE5, "ledger = ten tracked accounts (orbiter, dust collector, users, fee recipients, escrow, CCTP / warp / transfer module accounts) x four denoms; 'interleavings with other transfers' are sequential histories, covered by starting from an arbitrary ledger"},
